@@ -219,6 +219,33 @@ def w_frames(arg):
     return acc.res()
 
 
+def w_parity(df):
+    """the parity / PI field as an input in its own right: for one downlink format, both frame lengths and two
+    payloads, the last 24 bits are set so that the checksum of the frame (= overlaid address or interrogator code) takes
+    every value 0..255 and every single higher bit - for DF11 that is every CL/IC code, legal (0..79) or not."""
+    from spec import crc as R
+    acc = Acc()
+    tab = table()
+    rems = list(range(256)) + [1 << b for b in range(8, 24)] + [0xFFFFFF, 0xFFFF80]
+    for n in (56, 112):
+        for fill in (0, 1):
+            body = (df << (n - 29)) | (((1 << (n - 29)) - 1) if fill else 0x0581 << (n - 29 - 16))
+            if df in (17, 18) and n == 112:
+                body = (df << 83) | (5 << 80) | (0x4840D6 << 56) | ((11 << 51) if not fill else ((31 << 51) | ((1 << 51) - 1)))
+            for k, rem in enumerate(rems):
+                msg = F.hexn(R.downlink(body, n, rem), n)
+                if k % 3 == 1:
+                    msg = msg.lower()
+                for name, f, extras, kind, guard in tab:
+                    for extra in extras:
+                        acc.n += 1
+                        s = judge(name, extra, msg)
+                        if s:
+                            acc.bad(s + ":parity_sweep", {"kind": "call", "name": name, "extra": list(extra), "msg": msg})
+            acc.out.add(("parity", df, n, fill))
+    return acc.res()
+
+
 def w_lead(arg):
     """all 2^11 values of ME bits 6-16 (the leading fields after the type code: subtype, movement, emergency state,
     intent flags ...) for one DF/TC, tails zeros and ones, through every decoder whose guard accepts the TC + tell/infer."""
@@ -372,6 +399,8 @@ def w_any(t):
         return w_poles(None)
     if t[0] == "l":
         return w_lead(t[1])
+    if t[0] == "c":
+        return w_parity(t[1])
     return w_dispatch(None) if t[0] == "d" else w_frames(t[1])
 
 
@@ -383,6 +412,7 @@ def run(ctx):
     for df in range(32):
         tasks.append(("f", (0, [df], pays, ctx.thorough)))
     tasks += [("l", (df, tc)) for df in ((17, 18) if ctx.thorough else (17,)) for tc in range(32)]
+    tasks += [("c", df) for df in ((0, 4, 5, 11, 16, 17, 18, 20, 21, 24) if not ctx.thorough else range(32))]
     ctx.pmap(w_any, tasks)
     ctx.cov["functions"] = len(table())
     ctx.cov["exhaustive"] = True
@@ -401,7 +431,7 @@ def replay(case):
     if case["kind"] == "call":
         s = judge(case["name"], tuple(case["extra"]), case["msg"])
         if s:
-            return [(s, case), (s + ":register_payload", case)]
+            return [(s, case), (s + ":register_payload", case), (s + ":parity_sweep", case)]
     else:
         s = judge_dispatch(case["sub"], tuple(case["p"]))
     return [(s, case)] if s else []
